@@ -20,7 +20,7 @@ from fractions import Fraction
 import numpy as np
 
 PROP = 'C02'
-TARGETS = ['T8', 'T8b', 'T8c', 'T8d', 'T8e', 'T8f', 'T8g', 'T8h', 'T8j', 'T8k', 'T8m', 'T17p']
+TARGETS = ['T8', 'T8b', 'T8c', 'T8d', 'T8e', 'T8f', 'T8g', 'T8h', 'T8j', 'T8k', 'T8m', 'T8n', 'T17p']
 LEAN_MODULES = ['HdVerif.Props.C02']
 MODEL_MODULES = ['HdVerif.Model.SegRead', 'HdVerif.Model.SegMeta', 'HdVerif.Model.Effects']
 NAMESPACE = 'HdVerif.C02'
